@@ -85,6 +85,10 @@ fn ans_node<C: Cfg>(coder: &AnsCoder<C::W, C::S>, stack: &[Letter], parent: Opti
     let valid = coder.num_valid_bits() as f64;
     let bits = coder.num_bits() as f64;
     let words = coder.num_words();
+    // an inspection in between must not leave anything behind that would count towards the size
+    if let Some(d) = crate::walk::ans_inspection_changes::<C>(coder) {
+        out.push((format!("AnsCoder size bound | {} | a coder inspected between symbols does not stay the coder the bound was derived for", C::NAME), format!("letters {:?}: {d}", stack)));
+    }
     if n > 0 && valid > sum_info + sum_eps + (s - w + 1.0) + TOL {
         out.push((format!("AnsCoder size bound | {} | num_valid_bits exceeds sum(info)+sum(eps)+S-W+1", C::NAME),
             format!("letters {:?}: num_valid_bits {valid} > {} + {} + {}", stack, sum_info, sum_eps, s - w + 1.0)));
@@ -135,6 +139,9 @@ fn range_node<C: Cfg>(enc: &RangeEncoder<C::W, C::S>, hist: &[Letter], parent: O
     let sum_eps: f64 = hist.iter().map(|l| eps_range::<C>(l)).sum();
     let words = enc.num_words();
     let bits = enc.num_bits() as f64;
+    if let Some(d) = crate::walk::range_inspection_changes::<C>(enc) {
+        out.push((format!("RangeEncoder size bound | {} | an encoder inspected between symbols does not stay the encoder the bound was derived for", C::NAME), format!("letters {:?}: {d}", hist)));
+    }
     if words > n + (C::SBITS / C::WBITS) as usize {
         out.push((format!("RangeEncoder size bound | {} | more than n + S/W words", C::NAME), format!("letters {:?}: {words} words", hist)));
     }
